@@ -602,7 +602,7 @@ def rule_history_runs(ctx, rep):
                    "are the same when another contract was analysed and checked before it in the same process, when the detectors are "
                    "registered in the opposite order, and when they are run twice")
     where = ctx.path("tealer.tealer")
-    with concurrent.futures.ProcessPoolExecutor(max_workers=len(HIST_VARIANTS)) as ex:
+    with concurrent.futures.ProcessPoolExecutor(max_workers=len(HIST_VARIANTS), mp_context=__import__('multiprocessing').get_context('spawn')) as ex:
         results = dict(ex.map(history_worker, [(str(ctx.root), n) for n in HIST_VARIANTS]))
     for name, (kind, val) in results.items():
         if kind == "ANALYSIS":
